@@ -79,6 +79,11 @@ let parse_obs (t : string) : aobs =
       o_stopped = (s = "1"); o_listening = (l = "1") }
   | _ -> failwith ("bad obs " ^ t)
 
+let parse_totals (t : string) : nat * nat =
+  match String.split_on_char ',' t with
+  | [_; _; _; _; d; x; _; _] -> (nat (int_of_string d), nat (int_of_string x))
+  | _ -> failwith ("bad obs " ^ t)
+
 let scen_case which full toks impl_line =
   match toks with
   | n :: ctoks ->
@@ -113,7 +118,9 @@ let scen_case which full toks impl_line =
                  else if List.exists (fun x -> int x.o_gauge > ni || int x.o_handlers > ni) (fo :: os) then "oracle=fail@over-admit"
                  else "oracle=fail@capacity-not-recovered"
                end else begin
-                 if oracle_c13_acc cmds (os, fo) then "oracle=ok" else
+                 if oracle_c13_acc cmds (os, fo) then
+                   (if oracle_c13_conn cmds (List.map parse_totals o) then "oracle=ok"
+                    else "oracle=fail@connection-not-closed-after-response") else
                  (* label only: which clause is the first to fail *)
                  let rec label rev adm cs os = match cs, os with
                    | c :: cs', x :: os' ->
